@@ -274,7 +274,7 @@ def mixin_scenario(r, spec, typeref):
     roles = ["main", "service2", "service3"][:nsvc]
     r.shuffle(roles)
     spec["service_order"] = roles                     # the declaring service comes first / in the middle / last
-    own = []
+    own, holder = [], "main"
     if fam_own:
         holder = r.pick(["main", "main", "main", "service2"]) if nsvc >= 2 else "main"
         names = list(MIXINS[fam_own][1])
@@ -302,7 +302,8 @@ def mixin_scenario(r, spec, typeref):
         for m in rpcs:
             if m in own:
                 # Operations / Locations mix-ins do not yield to a same-named RPC of the API (open finding): produced seldom
-                want = r.maybe(0.12 if (on and fam != "iam") else 0.75)
+                # (and never for service2, whose client is only exercised by the shared-channel program)
+                want = r.maybe((0.12 if holder == "main" else 0.0) if (on and fam != "iam") else 0.75)
             else:
                 want = r.maybe(dense)
             if want:
@@ -453,19 +454,54 @@ def attr_family(qualname):
     return "?" + qualname
 
 
-def classify(spec, me, asy, what):
-    """signature key of a failing input for the OPEN findings, computed from the input and the failure class
-    (not from the model).  Kept narrow: any other failure class on the same input keeps its own key."""
-    stems = [spec["stem"], spec.get("stem2") or ""] + list(spec.get("module_of", {}).values())
-    if any(s.endswith("_pb2") for s in stems) and what in ("session:AttributeError", "serializer-family"):
+MULTI_TAGS = ("multi-client:", "client-after-close:", "shared-channel:", "context-manager:")
+# what a call of an RPC does when the client method that runs is the same-named MIX-IN method (exception type -> text)
+MIXIN_RAISES = {"AttributeError": "'NoneType' object has no attribute",          # request omitted: the mix-in reads request.<field>
+                "ValueError": "Request has no \"",                               # dict with the own request's fields -> mix-in request type
+                "InternalServerError": "Exception serializing request",          # instance of the own request class -> mix-in serializer
+                "ResourceExhausted": "metadata size exceeds"}                    # a very large `name` copied into the routing header
+
+
+def pb2_stem_typed(spec, methods):
+    """methods (of one service) whose request or response type is a message of the API defined in a target file NAMED *_pb2.proto"""
+    out = []
+    for me in methods or []:
+        for ref in (me["input"], me["output"]):
+            if ref["kind"] == "local" and addr_of(spec, ref)["module"].endswith("_pb2"):
+                out.append(me["name"])
+    return out
+
+
+def classify(spec, me, asy, what, detail="", paths=None, scope=None, evidence=None):
+    """signature key of a failing input for the OPEN findings: assigned only when the input has the recorded defect's TRIGGER
+    (decided from the spec) AND the failure is the recorded SYMPTOM at the recorded site (failure class, exception text, the path the
+    server saw, which stubs the transport opened); every other failure on the same input keeps its own, unlisted key.
+    detail: the failure text; paths: paths the server saw for this call; scope: methods of the service whose client/transport
+    failed (session failures); evidence: {(asy, method): the transport opened the mix-in stub and never the service's own}"""
+    import re
+    whole = spec.get("_whole", spec)
+    # ---- pb2-named-proto-file: trigger = a request/response type of THIS service from a file named *_pb2.proto;
+    # symptom = the transport cannot be constructed because that class lacks SerializeToString / FromString
+    if what == "session:AttributeError" and pb2_stem_typed(whole, spec["methods"] if scope is None else scope) \
+            and re.search(r"has no attribute '(SerializeToString|FromString)'", detail):
         return "pb2-named-proto-file"
+    if what == "serializer-family" and me is not None and pb2_stem_typed(whole, [me]):
+        return "pb2-named-proto-file"
+    # ---- mixin-shadows-own-rpc: trigger = an own RPC named like an Operations/Locations mix-in RPC that is listed AND has a rule;
+    # site = the transport opened the mix-in's stub and never the service's own; symptom = what the mix-in method does with the call
     if me is not None and me["name"] in mixed_in(spec) and MIXIN_FAMILY[me["name"]] in ("ops", "loc") \
-            and not what.startswith(("session:", "generation-crash", "multi-client:session", "serializer-family")):
-        # every observation of a call of THIS method (path, arity, payload, return, exception): the call reached the mix-in RPC
-        return "mixin-shadows-own-rpc:operations-locations"
-    if me is not None and me["output"]["full"] == "google.protobuf.Empty" and (me["ss"] or me["cs"]) and asy \
-            and what == "call-count":
-        return "void-streaming:async-call-dropped"
+            and (evidence or {}).get((bool(asy), me["name"])):
+        mp = f"/{MIXINS[MIXIN_FAMILY[me['name']]][0]}/{me['name']}"
+        base = next((what[len(t):] for t in MULTI_TAGS if what.startswith(t)), what)
+        if base in ("path", "arity", "payload", "return", "own-server-calls") and paths == [mp]:
+            return "mixin-shadows-own-rpc:operations-locations"
+        if base.startswith("raised:") and base[7:] in MIXIN_RAISES and MIXIN_RAISES[base[7:]] in detail:
+            return "mixin-shadows-own-rpc:operations-locations"
+    # ---- void-streaming:async-call-dropped: trigger = asyncio AND reply Empty AND (server- or client-streaming) — never a void
+    # UNARY RPC; symptom = NO call reached the server, or (client-streaming) the released call was cut short
+    if me is not None and asy and me["output"]["full"] == "google.protobuf.Empty" and (me["ss"] or me["cs"]):
+        if what == "call-count:none" or (what == "call-count:cut-short" and me["cs"]):
+            return "void-streaming:async-call-dropped"
     return None
 
 
@@ -704,7 +740,8 @@ def judge_multi(ctx, spec, codec, mplan, mout, fail, payload):
                 if "raised" in res_:
                     missing.add(step["name"])
                     # same failure class as a single client that cannot be constructed
-                    fail("session:" + res_["raised"], f"{fl}: client {step['name']} could not be constructed: {res_['raised']}: {res_.get('msg')}", None, asy)
+                    fail("session:" + res_["raised"], f"{fl}: client {step['name']} could not be constructed: {res_['raised']}: {res_.get('msg')}", None, asy,
+                         scope=(spec.get("service2") or {}).get("methods", []) if step["name"] == "s" else spec["methods"])
                 continue
             if step["do"] == "close":
                 if "raised" in res_ and step["name"] not in missing:
@@ -723,12 +760,13 @@ def judge_multi(ctx, spec, codec, mplan, mout, fail, payload):
             if "ok" not in res_:
                 fail(f"{tag}:raised:{res_.get('raised')}", f"{fl} client {st['client']}@{st['target']} {me['name']} raised {res_.get('raised')}: {res_.get('msg')}", me, asy, extra=extra)
                 continue
+            seen = [x["path"] for x in res_["servers"].get(st["target"], [])]
             for sn, recs in res_["servers"].items():
                 if sn == st["target"]:
                     if len(recs) != 1 or recs[0]["path"] != st["path"]:
-                        fail(f"{tag}:own-server-calls", f"{fl} client {st['client']}@{sn} {me['name']}: its own server saw {[x['path'] for x in recs]}, expected exactly one call to {st['path']}", me, asy, extra=extra)
+                        fail(f"{tag}:own-server-calls", f"{fl} client {st['client']}@{sn} {me['name']}: its own server saw {[x['path'] for x in recs]}, expected exactly one call to {st['path']}", me, asy, extra=extra, paths=seen)
                     elif [codec.decode(in_full, b) for b in recs[0]["requests"]] != st["requests"]:
-                        fail(f"{tag}:payload", f"{fl} client {st['client']}@{sn} {me['name']}: server decoded {[codec.decode(in_full, b) for b in recs[0]['requests']]}, caller sent {st['requests']}", me, asy, extra=extra)
+                        fail(f"{tag}:payload", f"{fl} client {st['client']}@{sn} {me['name']}: server decoded {[codec.decode(in_full, b) for b in recs[0]['requests']]}, caller sent {st['requests']}", me, asy, extra=extra, paths=seen)
                 elif recs:
                     fail(f"{tag}:call-on-other-channel", f"{fl} client {st['client']}@{st['target']} {me['name']}: server {sn} (another client's channel) received {[x['path'] for x in recs]}", me, asy, extra=extra)
             if res_.get("exit_raised"):
@@ -743,7 +781,7 @@ def judge_multi(ctx, spec, codec, mplan, mout, fail, payload):
             ret = observed_ret(codec, me, res_["ok"])
             want = expected_ret(me, st["replies"])
             if ret != want and not (want["kind"] == "none" and ret == {"kind": "stream", "items": [None] * len(st["replies"])}):
-                fail(f"{tag}:return", f"{fl} client {st['client']}@{st['target']} {me['name']}: returned {str(ret)[:200]}, its server sent {str(want)[:200]}", me, asy, extra=extra)
+                fail(f"{tag}:return", f"{fl} client {st['client']}@{st['target']} {me['name']}: returned {str(ret)[:200]}, its server sent {str(want)[:200]}", me, asy, extra=extra, paths=seen)
 
 
 def safe_decode(codec, full, data):
@@ -790,8 +828,10 @@ def _run_api(ctx, r, spec, label, per_method, informational, multi_client, files
     req = apigen.request(files, params, targets=targets)
     payload = {"spec": spec}
 
-    def fail(key, what, me=None, asy=None, kind=None, extra=None):
-        k = classify(spec, me, asy, kind or key) or key
+    shadow_ev = {}          # filled from the single-client sessions (see below)
+
+    def fail(key, what, me=None, asy=None, kind=None, extra=None, paths=None, scope=None):
+        k = classify(spec, me, asy, kind or key, detail=what, paths=paths, scope=scope, evidence=shadow_ev) or key
         if informational:
             ctx.assume(f"{informational} [probed: {k}: {what[:160]}]")
             ctx.count("excluded_points", k)
@@ -912,6 +952,12 @@ def _run_api(ctx, r, spec, label, per_method, informational, multi_client, files
             multi = (mplan, mout)
     finally:
         genrun.cleanup(root)
+    for asy, sess in zip((False, True), out):
+        opened = {x[0] for x in sess.get("stubs_all", [])}
+        for me in spec["methods"]:
+            if me["name"] in mixed_in(spec) and MIXIN_FAMILY[me["name"]] in ("ops", "loc"):
+                shadow_ev[(asy, me["name"])] = (f"/{svc_pkg(spec)}.{spec.get('service', SERVICE)}/{me['name']}" not in opened
+                                                and f"/{MIXINS[MIXIN_FAMILY[me['name']]][0]}/{me['name']}" in opened)
     if multi is not None:
         judge_multi(ctx, spec, codec, multi[0], multi[1], fail, payload)
     # model traces
@@ -952,10 +998,10 @@ def _run_api(ctx, r, spec, label, per_method, informational, multi_client, files
             kinds_by_path.setdefault(path, set()).add(kind)
             if ser != "None" or des != "None":
                 fam_by_path.setdefault(path, set()).add((attr_family(ser), attr_family(des)))
-        # asyncio + void + client-streaming: the released call completes (or not) in the background; its server
-        # record may surface in the log slice of a LATER call. Such stray records are not attributed to later calls.
-        stray = {f"/{svc_pkg(spec)}.{spec.get('service', SERVICE)}/{m2['name']}" for m2 in spec["methods"]
-                 if asy and m2["cs"] and m2["output"]["full"] == "google.protobuf.Empty"}
+        # asyncio + void + client-streaming (open finding): the released call completes (or not) in the background; its server
+        # record may surface in the log slice of a LATER call.  A record is such a stray exactly when it carries the caller tag
+        # (x-verif-call) of an EARLIER call of such an RPC; only those are not attributed to the later call.
+        stray_tags = set()
         for p, res_ in zip(plans, sess["calls"]):
             mr = mres[k]; k += 1
             me = spec["methods"][p["mi"]]
@@ -988,7 +1034,9 @@ def _run_api(ctx, r, spec, label, per_method, informational, multi_client, files
                 impl = {"error": res_.get("raised")}
                 fail("raised:" + str(res_.get("raised")), f"{fl} {me['name']}({p['mode']}) raised {res_.get('raised')}: {res_.get('msg')}", me, asy, extra=extra)
             else:
-                srv = [rec for rec in res_["server"] if rec["path"] not in stray or rec["path"] == want_path]
+                srv = [rec for rec in res_["server"]
+                       if not ({v for k_, v in (list(x) for x in rec.get("metadata", [])) if k_ == "x-verif-call"} & stray_tags)]
+                seen = [rec["path"] for rec in srv]
                 calls = []
                 for rec in srv:
                     sent = [safe_decode(codec, in_full, b) for b in rec["requests"]]
@@ -1000,30 +1048,32 @@ def _run_api(ctx, r, spec, label, per_method, informational, multi_client, files
                 # ---------------- oracle (restates the property; independent of the model)
                 void_stream = me["output"]["full"] == "google.protobuf.Empty" and me["ss"]
                 if len(srv) != 1:
-                    fail("call-count", f"{fl} {me['name']}({p['mode']}): {len(srv)} calls on the channel, expected exactly one", me, asy, "call-count", extra)
+                    fail("call-count", f"{fl} {me['name']}({p['mode']}): {len(srv)} calls on the channel, expected exactly one", me, asy,
+                         "call-count:none" if not srv else "call-count:many", extra)
                 else:
                     rec = srv[0]
                     if rec["path"] != want_path:
-                        fail("path", f"{fl} {me['name']}: call went to {rec['path']}, expected {want_path}", me, asy, extra=extra)
+                        fail("path", f"{fl} {me['name']}: call went to {rec['path']}, expected {want_path}", me, asy, extra=extra, paths=seen)
                     if kinds_by_path.get(rec["path"]) != {want_kind}:
-                        fail("arity", f"{fl} {me['name']}: stub opened as {sorted(kinds_by_path.get(rec['path'], []))}, proto declares {want_kind}", me, asy, extra=extra)
+                        fail("arity", f"{fl} {me['name']}: stub opened as {sorted(kinds_by_path.get(rec['path'], []))}, proto declares {want_kind}", me, asy, extra=extra, paths=seen)
                     sent = [safe_decode(codec, in_full, b) for b in rec["requests"]]
                     unknown = any(safe_unknown(codec, in_full, b) for b in rec["requests"])
                     if sent != p["requests"] or unknown:
                         dropped = (asy and me["cs"] and me["output"]["full"] == "google.protobuf.Empty" and not unknown
                                    and sent == p["requests"][:len(sent)])      # the released call was cut short (same defect)
-                        fail("payload" if not dropped else "call-count", f"{fl} {me['name']}({p['mode']}): server decoded {sent}, caller's request is {p['requests']}", me, asy, "call-count" if dropped else "payload", extra)
+                        fail("payload" if not dropped else "call-count", f"{fl} {me['name']}({p['mode']}): server decoded {sent}, caller's request is {p['requests']}", me, asy, "call-count:cut-short" if dropped else "payload", extra, paths=seen)
                     # the caller's metadata travels with the call (the wrapped method is invoked with `metadata=metadata`)
                     ctx.traces += 1
-                    dropped_kind = asy and me["output"]["full"] == "google.protobuf.Empty" and (me["cs"] or me["ss"])   # open finding: records may be strays of an earlier released call
-                    if not dropped_kind and ["x-verif-call", p.get("tag")] not in [list(x) for x in rec["metadata"]]:
+                    if ["x-verif-call", p.get("tag")] not in [list(x) for x in rec["metadata"]]:
                         ctx.disagree("T3:c03.metadata-passthrough", f"{fl} {me['name']}({p['mode']}): caller metadata x-verif-call={p.get('tag')} not among {[x for x in rec['metadata'] if x[0].startswith('x-')]}", dict(payload, **extra))
                 want_ret = expected_ret(me, p["replies"])
                 ok_ret = (ret == want_ret)
                 if void_stream and ret == {"kind": "stream", "items": [None] * len(p["replies"])}:
                     ok_ret = True       # "None for Empty", item-wise: accepted as well
                 if not ok_ret:
-                    fail("return", f"{fl} {me['name']}: returned {str(ret)[:300]}, server sent {str(want_ret)[:300]}", me, asy, extra=extra)
+                    fail("return", f"{fl} {me['name']}: returned {str(ret)[:300]}, server sent {str(want_ret)[:300]}", me, asy, extra=extra, paths=seen)
+            if asy and me["cs"] and me["output"]["full"] == "google.protobuf.Empty":
+                stray_tags.add(p.get("tag"))
             # ---------------- correspondence with the model
             if shadowed_by_mixin(spec, me):
                 ctx.unsupported += 1          # WF.later violated: what a mix-in stub does is outside the model (C17)
